@@ -442,3 +442,153 @@ Theorem park_oracle_sound held allc rr leak :
 Proof.
   unfold park_oracle, park_spec. rewrite andb_true_iff, Z.eqb_eq, end_oracle_sound. tauto.
 Qed.
+
+(* ------------------------------------------------------------------------------------- *)
+(* the cap clause for Adds in no known order                                                *)
+
+Theorem cap_burst_oracle_sound c p n sigs :
+  cap_burst_oracle c p n sigs = true <-> cap_burst_spec c p n sigs.
+Proof.
+  unfold cap_burst_oracle, cap_burst_spec. destruct (cap c) as [m|]; [|tauto].
+  destruct (m <=? p + n) eqn:E.
+  - rewrite Z.ltb_lt. split; [intros H _; exact H | intro H; apply H; lia].
+  - split; [intros _ H; lia | reflexivity].
+Qed.
+
+(* the events of a burst: Adds and the run loop handling tokens *)
+Definition burst_ev (e : event) : bool :=
+  match e with Model.Add | LoopTop | TakeToken | HandleToken => true | _ => false end.
+
+(* tokens not yet handled: still to be received, or received and in the run loop's hand *)
+Definition outstanding (s : state) : Z := tokens s + (if rpc_eqb (run s) R_input then 1 else 0).
+
+Definition burst_inv (m p0 a0 sp0 : Z) (s : state) : Prop :=
+  sp0 < spawned s \/
+  (spawned s = sp0 /\ pending s = p0 + (adds s - a0) /\ has_timer s = true /\ closed s = false /\
+   0 <= tokens s /\ (outstanding s = 0 -> adds s = a0 \/ pending s < m)).
+
+Lemma burst_step v c m s e s' p0 a0 sp0 : cap c = Some m -> 0 < m ->
+  burst_ev e = true -> step v c s e = Some s' ->
+  burst_inv m p0 a0 sp0 s -> burst_inv m p0 a0 sp0 s'.
+Proof.
+  intros Hcap Hm He H [Hs|(Hsp & Hp & Hh & Hcl & Ht & Ho)].
+  - left. destruct (step_spawn _ _ _ _ _ H) as (S1 & _).
+    destruct (fires c s e && (0 <? pending s)); lia.
+  - destruct e; try discriminate He; cbn [step] in H; step_inv H; boolprops.
+    + (* Add, dropped: impossible, not closed *)
+      rewrite Hcl in *. destruct (is_fixed v); discriminate.
+    + (* Add *)
+      right. unfold outstanding in *. cbn. repeat split; try assumption; try lia.
+      intro X. destruct (rpc_eqb (run s) R_input); lia.
+    + (* LoopTop *)
+      right. unfold outstanding, set_run in *. cbn. rewrite H in Ho. cbn in Ho.
+      repeat split; assumption.
+    + (* TakeToken *)
+      right. unfold outstanding in *. cbn. repeat split; try assumption; try lia.
+    + (* HandleToken *)
+      unfold handle_input. rewrite Hh. cbn [negb].
+      destruct (cap_reached c (pending s)) eqn:Ecap.
+      * left. unfold cap_reached in Ecap. rewrite Hcap in Ecap.
+        unfold fire, set_run; cbn. replace (0 <? pending s) with true by lia. cbn. lia.
+      * right. unfold cap_reached in Ecap. rewrite Hcap in Ecap.
+        unfold handle_extend. destruct (next_backoff c s). unfold outstanding. cbn.
+        repeat split; try assumption. intros _. right. lia.
+Qed.
+
+(* In ANY interleaving of n >= 1 Adds with the run loop, starting with a window open, nothing
+   in flight and p Adds pending, and ending with every token handled: if p + n reaches the cap,
+   a signal has been spawned. *)
+Theorem cap_burst_signals v c m : cap c = Some m -> 0 < m ->
+  forall es s s', has_timer s = true -> closed s = false -> tokens s = 0 -> run s <> R_input ->
+  forallb burst_ev es = true -> exec v c s es = Some s' ->
+  outstanding s' = 0 -> adds s < adds s' -> m <= pending s + (adds s' - adds s) ->
+  spawned s < spawned s'.
+Proof.
+  intros Hcap Hm es s s' Hh Hcl Ht Hr Hall Hex Hout Hn Hreach.
+  assert (G : forall es s1, burst_inv m (pending s) (adds s) (spawned s) s1 ->
+              forallb burst_ev es = true -> exec v c s1 es = Some s' ->
+              burst_inv m (pending s) (adds s) (spawned s) s').
+  { clear es Hall Hex. induction es as [|e es IH]; intros s1 HI Hall Hex; cbn [exec] in Hex.
+    - injection Hex as <-. exact HI.
+    - cbn [forallb] in Hall. apply andb_true_iff in Hall as [He Hall].
+      destruct (step v c s1 e) as [s2|] eqn:E; [|discriminate].
+      eapply IH; [eapply burst_step; eassumption | exact Hall | exact Hex]. }
+  assert (H0 : burst_inv m (pending s) (adds s) (spawned s) s).
+  { right. repeat split; try assumption; try lia; try (intros _; left; reflexivity). }
+  destruct (G es s H0 Hall Hex) as [X|(_ & Hp & _ & _ & _ & Ho)]; [exact X|].
+  destruct (Ho Hout); lia.
+Qed.
+
+(* non-vacuity: cap 2, window open, three Adds all counted before the first token is handled *)
+Example cap_burst_nonvacuous :
+  holds_after Original ex_cfg
+    [LoopTop; Model.Add; TakeToken; HandleToken; LoopTop;
+     Model.Add; Model.Add; Model.Add; TakeToken; HandleToken; LoopTop; TakeToken; HandleToken; LoopTop;
+     TakeToken; HandleToken; LoopTop]
+    (fun s => (tokens s =? 0) && (spawned s =? 2) && (pending s =? 0)) = true.
+Proof. vm_compute. reflexivity. Qed.
+
+(* ------------------------------------------------------------------------------------- *)
+(* the first-Add clause for Adds in no known order                                          *)
+
+Theorem idle_burst_oracle_sound n sigs :
+  idle_burst_oracle n sigs = true <-> idle_burst_spec n sigs.
+Proof.
+  unfold idle_burst_oracle, idle_burst_spec. rewrite orb_true_iff, Z.leb_le, Z.ltb_lt.
+  split; [intros [H|H] ?; lia | intro H; destruct (Z_le_gt_dec n 0); [left; assumption | right; apply H; lia]].
+Qed.
+
+Definition idle_inv (a0 sp0 : Z) (s : state) : Prop :=
+  sp0 < spawned s \/
+  (spawned s = sp0 /\ has_timer s = false /\ closed s = false /\ 0 <= tokens s /\
+   pending s = adds s - a0 /\ outstanding s = adds s - a0).
+
+Lemma idle_step v c s e s' a0 sp0 :
+  burst_ev e = true -> step v c s e = Some s' -> idle_inv a0 sp0 s -> idle_inv a0 sp0 s'.
+Proof.
+  intros He H [Hs|(Hsp & Hh & Hcl & Ht & Hp & Ho)].
+  - left. destruct (step_spawn _ _ _ _ _ H) as (S1 & _).
+    destruct (fires c s e && (0 <? pending s)); lia.
+  - destruct e; try discriminate He; cbn [step] in H; step_inv H; boolprops.
+    + rewrite Hcl in *. destruct (is_fixed v); discriminate.
+    + right. unfold outstanding in *. cbn. repeat split; try assumption; lia.
+    + right. unfold outstanding, set_run in *. cbn. rewrite H in Ho. cbn in Ho.
+      repeat split; assumption.
+    + right. unfold outstanding in *. cbn. rewrite H in Ho. cbn in Ho.
+      repeat split; try assumption; lia.
+    + (* HandleToken with no timer: at least this token's Add is pending: it fires *)
+      left. unfold outstanding in Ho. rewrite H in Ho. cbn in Ho.
+      unfold handle_input. rewrite Hh. cbn [negb]. unfold handle_first, fire; cbn.
+      replace (0 <? pending s) with true by lia. cbn. lia.
+Qed.
+
+(* In ANY interleaving of n >= 1 Adds with the run loop, starting idle (no window, nothing
+   pending or in flight) and ending with every token handled, a signal has been spawned - and no
+   clock advance is among the events. *)
+Theorem idle_burst_signals v c :
+  forall es s s', has_timer s = false -> pending s = 0 -> closed s = false -> tokens s = 0 ->
+  run s <> R_input -> forallb burst_ev es = true -> exec v c s es = Some s' ->
+  outstanding s' = 0 -> adds s < adds s' -> spawned s < spawned s' /\ now s' = now s.
+Proof.
+  intros es s s' Hh Hp Hcl Ht Hr Hall Hex Hout Hn.
+  assert (G : forall es s1, idle_inv (adds s) (spawned s) s1 /\ now s1 = now s ->
+              forallb burst_ev es = true -> exec v c s1 es = Some s' ->
+              idle_inv (adds s) (spawned s) s' /\ now s' = now s).
+  { clear es Hall Hex. induction es as [|e es IH]; intros s1 HI Hall Hex; cbn [exec] in Hex.
+    - injection Hex as <-. exact HI.
+    - cbn [forallb] in Hall. apply andb_true_iff in Hall as [He Hall].
+      destruct (step v c s1 e) as [s2|] eqn:E; [|discriminate].
+      eapply IH; [|exact Hall | exact Hex]. destruct HI as [HI Hnow]. split.
+      + eapply idle_step; eassumption.
+      + rewrite <- Hnow. destruct e; try discriminate He; cbn [step] in E; step_inv E;
+          unfold set_run, handle_input, handle_first, handle_extend, fire; cbn; try reflexivity.
+        destruct (negb (has_timer s1)); [destruct (0 <? pending s1); reflexivity|].
+        destruct (cap_reached c (pending s1)); [destruct (0 <? pending s1); reflexivity|].
+        destruct (next_backoff c s1); reflexivity. }
+  assert (H0 : idle_inv (adds s) (spawned s) s /\ now s = now s).
+  { split; [|reflexivity]. right. unfold outstanding.
+    destruct (rpc_eqb (run s) R_input) eqn:E; [apply rpc_eqb_eq in E; congruence|].
+    repeat split; try assumption; lia. }
+  destruct (G es s H0 Hall Hex) as [[X|(_ & _ & _ & _ & _ & Ho)] Hnow]; [split; assumption|].
+  lia.
+Qed.
